@@ -61,6 +61,40 @@ type HoldD struct {
 	Hp *hid
 }
 
+// profile and profileD are unexported struct types with exported members: the members of an
+// Acct can be reached from another package, the types cannot be named there.
+type profile struct {
+	Email  string
+	Age    int
+	secret int
+}
+
+type profileD struct {
+	Email  string
+	Age    int
+	secret int
+}
+
+// Acct and AcctD also hold an unnamed struct with a hidden member.
+type Acct struct {
+	Profile profile
+	Anon    struct {
+		hidden int
+		Shown  int
+	}
+	id int
+}
+
+type AcctD struct {
+	Profile profileD
+	Anon    struct {
+		hidden int
+		Shown  int
+		More   bool
+	}
+	id int
+}
+
 // XIn is an imported struct with an unexported member.
 type XIn struct {
 	X int
@@ -206,6 +240,23 @@ type DstE struct {
 	K int
 }
 
+// LMine and LMineD are local types defined over imported structs: their members stay foreign.
+type LMine wext.Acct
+
+type LMineD wext.AcctD
+
+type SrcF struct {
+	Ac wext.Acct
+	M  LMine
+	Z  int
+}
+
+type DstF struct {
+	Ac wext.AcctD
+	M  LMineD
+	Z  int
+}
+
 func CvNIn(n NIn) NIn          { return NIn{X: n.X + 1, Y: n.Y} }
 func CvII(i int) int           { return i + 1 }
 func CvIS(i int) string        { return "s" }
@@ -223,7 +274,7 @@ var NotAFunc = 1
 `
 
 // WorldRoots are the (destination, source) root pairs explored.
-var WorldRoots = [][2]string{{"DstA", "SrcA"}, {"DstB", "SrcA"}, {"DstC", "SrcA"}, {"DstD", "SrcA"}, {"DstE", "SrcA"}}
+var WorldRoots = [][2]string{{"DstA", "SrcA"}, {"DstB", "SrcA"}, {"DstC", "SrcA"}, {"DstD", "SrcA"}, {"DstE", "SrcA"}, {"DstF", "SrcF"}}
 
 // WorldFuncs are the converter candidates named by :conv cases.
 var WorldFuncs = []string{"CvII", "CvIS", "CvPI", "CvIE", "CvNI", "CvPN", "CvSI", "CvNN", "CvNIn", "CvTwo", "CvNone", "CvBad", "NotAFunc", "Missing", "wext.XConv"}
@@ -368,7 +419,8 @@ func (w *WorldChecked) Table() string {
 		var fs, gs []string
 		for i := 0; i < st.NumFields(); i++ {
 			f := st.Field(i)
-			fs = append(fs, fmt.Sprintf("[n |-> %s, t |-> %s, ex |-> %s, emb |-> %s]", q(f.Name()), q(w.id(f.Type())), tlaBool(f.Exported()), tlaBool(f.Embedded())))
+			fs = append(fs, fmt.Sprintf("[n |-> %s, t |-> %s, ex |-> %s, emb |-> %s, vis |-> %s]", q(f.Name()), q(w.id(f.Type())), tlaBool(f.Exported()), tlaBool(f.Embedded()),
+				tlaBool(f.Exported() || f.Pkg() == w.Pkg)))
 		}
 		ext := false
 		if nt, ok := t.(*types.Named); ok {
@@ -388,8 +440,8 @@ func (w *WorldChecked) Table() string {
 				}
 				// default getter: no parameter and exactly one non-error result
 				getter := sig.Params().Len() == 0 && sig.Results().Len() == 1 && !isErr(sig.Results().At(0).Type())
-				gs = append(gs, fmt.Sprintf("[n |-> %s, t |-> %s, err |-> %s, ptr |-> %s, ex |-> %s, callable |-> %s, getter |-> %s]",
-					q(m.Name()), q(res), tlaBool(retErr), tlaBool(ptrRecv), tlaBool(m.Exported()), tlaBool(valid), tlaBool(getter)))
+				gs = append(gs, fmt.Sprintf("[n |-> %s, t |-> %s, err |-> %s, ptr |-> %s, ex |-> %s, callable |-> %s, getter |-> %s, vis |-> %s]",
+					q(m.Name()), q(res), tlaBool(retErr), tlaBool(ptrRecv), tlaBool(m.Exported()), tlaBool(valid), tlaBool(getter), tlaBool(m.Exported() || m.Pkg() == w.Pkg)))
 			}
 		}
 		structs = append(structs, fmt.Sprintf("%s :> [ext |-> %s, fs |-> <<%s>>, ms |-> <<%s>>]", q(id), tlaBool(ext), strings.Join(fs, ", "), strings.Join(gs, ", ")))
